@@ -172,6 +172,18 @@ CLAIMS["C16"] = dict(
     technique="TLC-enumerated truncation points from recorded field tapes, forked execution under sanitizers + watchdog, TLC validation of the loader contract",
     design="DESIGN.md §4 C16")
 
+CLAIMS["C08"] = dict(
+    category="translation_validation",
+    text=("Two programs - the vendored reference snapshot /verif/ref (pinned sources + add-only hooks) and /repo's working tree - are built "
+          "with the same harness. Each synthesises normal-form files for the registered block types x 11 versions x 3 modes with the same "
+          "seeds; every file written by either build and every sample file is loaded and raw-re-saved by both. TLC evaluates "
+          "NifWire!TwoBuildViol per file: same load result, same re-encoding (header tables, sizes, per-block hashes, whole-file hash), "
+          "each build consumes every block exactly, normal-form files re-encode to identical bytes in both builds."),
+    note=("The reference build's recorded behaviour is the specification instance; TLC is the comparator and localiser. Hash equality stands "
+          "for byte equality. Field values are those the typed generator produces (small counts and enums)."),
+    technique="translation validation of two builds over synthesised and sample files, relation stated in TLA+ and evaluated by TLC",
+    design="DESIGN.md §3.2, §4 C08")
+
 NOT_YET = {}
 
 
